@@ -158,6 +158,23 @@ def _worker(task):
                     pair(l, _rename(r, 'r_'))                # disjoint labels
             if a % parts == part:
                 pair(l, l, same=True)
+    elif kind == 'wide':
+        # many outputs, the two circuits differing in exactly ONE output position (every position in turn): a reduction
+        # of the pairwise xors that loses an operand shows only here
+        for m in range(1, task[1] + 1):
+            ins = ['x0', 'x1']
+            gl = {'x0': ('INPUT', ()), 'x1': ('INPUT', ())}
+            for j in range(m):
+                gl[f'o{j}'] = (('AND', 'OR', 'XOR')[j % 3], ('x0', 'x1'))
+            left = N.Net(ins, [f'o{j}' for j in range(m)], gl)
+            pair(left, _rename(left, 'r_'))
+            for k in range(m):
+                gr = dict(gl)
+                t, ops = gr[f'o{k}']
+                gr[f'o{k}'] = ({'AND': 'NAND', 'OR': 'NOR', 'XOR': 'NXOR'}[t], ops)
+                right = N.Net(ins, [f'o{j}' for j in range(m)], gr)
+                pair(left, right)
+                pair(right, _rename(left, 'r_'))
     elif kind == 'shapes':
         P = [p for n_in in (0, 1, 2) for p in pool(n_in, 1)]
         rng = K.rng_for('C13', 'shapes')
@@ -209,9 +226,9 @@ def run_bounded(rep, quick):
         'quick: 40x40 sampled pool circuits; thorough: 120x120', exhaustive=False)
     tasks = []
     if quick:
-        tasks += [('pairs', 0, 1, 1, 0, 1), ('pairs', 1, 1, 1, 0, 1), ('pairs', 2, 1, 4, 0, 1), ('shapes', 40), ('random', 1500, 0, 8.0)]
+        tasks += [('pairs', 0, 1, 1, 0, 1), ('pairs', 1, 1, 1, 0, 1), ('pairs', 2, 1, 4, 0, 1), ('shapes', 40), ('random', 1500, 0, 8.0), ('wide', 12)]
     else:
-        tasks += [('pairs', 0, 1, 1, 0, 1), ('shapes', 120)]
+        tasks += [('pairs', 0, 1, 1, 0, 1), ('shapes', 120), ('wide', 20)]
         tasks += [('pairs', 1, 1, 1, p, 8) for p in range(8)]
         tasks += [('pairs', 2, 1, 1, p, 16) for p in range(16)]
         tasks += [('pairs', 1, 2, 10, p, 16) for p in range(16)]
